@@ -44,6 +44,7 @@ def run_wsgi(case):
     headers = []
     if cl is not None:
         headers.append(('Content-Length', str(cl)))
+    headers += [tuple(h) for h in case.get('extra_headers') or []]
     inp = wsgi_driver.Input(data, short=short)
     env = wsgi_driver.build_environ('POST', '/', headers=headers, input_obj=inp)
     req = falcon.Request(env)
@@ -207,6 +208,10 @@ class WsgiEnum(Suite):
         return classify_wsgi(case)
 
 
+# other request headers must not change how the body is bounded
+_extra_headers = st.one_of(st.just([]), st.just([]), st.lists(st.sampled_from([
+    ['Transfer-Encoding', 'chunked'], ['Expect', '100-continue'], ['Content-Type', 'text/plain'], ['Connection', 'keep-alive'],
+    ['Content-Encoding', 'gzip'], ['TE', 'trailers']]), min_size=1, max_size=2, unique_by=lambda h: h[0]))
 _size = st.one_of(st.integers(0, 12), st.sampled_from([-1, None, 'noarg', 64, 100000]))
 _wop = st.one_of(
     st.tuples(st.just('read'), _size), st.tuples(st.just('read'), _size),
@@ -235,9 +240,10 @@ class WsgiRandom(Suite):
                 cl = len(body) + extra
             data = body if regime == 'longer' else body + b'PIPELINED\nNEXT'
             return {'data': data, 'content_length': cl, 'ops': ops, 'short': short}
-        return st.builds(build, _body, st.sampled_from(['absent', 'exact', 'exact', 'shorter', 'longer']), st.integers(1, 5),
+        base = st.builds(build, _body, st.sampled_from(['absent', 'exact', 'exact', 'shorter', 'longer']), st.integers(1, 5),
                          st.lists(_wop, min_size=1, max_size=10),
                          st.one_of(st.none(), st.none(), st.lists(st.integers(0, 4), min_size=1, max_size=3)))
+        return st.builds(lambda c, extra: dict(c, extra_headers=extra), base, _extra_headers)
 
     def run(self, case):
         run_wsgi(case)
@@ -266,6 +272,7 @@ def run_asgi(case):
     headers = []
     if cl is not None:
         headers.append(('Content-Length', str(cl)))
+    headers += [tuple(h) for h in case.get('extra_headers') or []]
     scope = asgi_driver.build_scope('POST', '/', headers=headers)
     B = asgi_expected(events, cl)
     ctx = lambda: 'events=%r Content-Length=%r preload=%r ops=%r' % (events, cl, preload, case['ops'])  # noqa: E731
@@ -535,7 +542,8 @@ def _asgi_case(draw):
     cl = None if regime == 'absent' else total if regime == 'exact' else max(0, total - draw(st.integers(1, 6))) if regime == 'shorter' \
         else total + draw(st.integers(1, 5))
     ops = _fix_history(draw(st.lists(_aop, min_size=1, max_size=8)))
-    return {'events': events, 'content_length': cl, 'ops': ops, 'preload': draw(st.sampled_from([True, True, True, False]))}
+    return {'events': events, 'content_length': cl, 'ops': ops, 'preload': draw(st.sampled_from([True, True, True, False])),
+            'extra_headers': draw(_extra_headers)}
 
 
 class AsgiRandom(Suite):
